@@ -124,6 +124,10 @@ BLOCKED = [
 BASE = [
     ('base-KeyboardInterrupt', "raise KeyboardInterrupt"), ('base-GeneratorExit', "raise GeneratorExit"),
     ('base-custom', "class Stop(BaseException):\n    pass\nraise Stop('base')"), ('base-BaseException', "raise BaseException('b')"),
+    # an ordinary failure whose description is cut short by an interrupt: the exception that ends the call is raised while pedal
+    # records the student's one, not by the student's program itself (seeded C05-18)
+    ('base-KeyboardInterrupt-while-described', "class MyError(Exception):\n    def __str__(self):\n        raise KeyboardInterrupt\nraise MyError('mine')"),
+    ('base-KeyboardInterrupt-while-repr', "class MyError(Exception):\n    def __repr__(self):\n        raise KeyboardInterrupt\n    __str__ = __repr__\nraise MyError('mine')"),
 ]
 OKAY = [
     ('ok-sets-a-trace-function', "import sys\nsys.settrace(lambda *a: None)\nx = 1"),
